@@ -85,6 +85,10 @@ class C05(Prop):
                 yield {"kind": "exh", "width": w, "ic": ic}
         n = (2500 if tier == "quick" else 25000)
         for i in range(n):
+            if i % 500 == 13:
+                ii, si = r.choice(PREFIXES)
+                yield {"kind": "emptyseg", "a": " ".join(plain_word(r, 8) for _ in range(r.randint(1, 6))), "b": " ".join(plain_word(r, 8) for _ in range(r.randint(1, 6))),
+                       "hb": r.choice(["\\\n", "  \n"]), "ii": ii, "si": si, "width": r.choice([0, 12, 40, 88])}
             if i % 400 == 11:
                 # one paragraph with hundreds or thousands of atomic constructs (an index, a table of them, a counter with a fixed
                 # number of digits ...), and one with a single construct of several thousand characters
@@ -141,6 +145,9 @@ class C05(Prop):
                     # right behind its closing delimiter is a break, a break-like line end inside it is tag text
                     tg = r.choice([("{% tag a=1 b=\"x y\" %}", "{% tag a=1\nb=\"x y\" %}"), ("<!-- a comment here -->", "<!-- a comment\nhere -->"),
                                    ("{{ v | f(1, 2) }}", "{{ v |\nf(1, 2) }}"), ("{# note to self #}", "{# note  \nto self #}")])
+                    # (two fence look-alikes in the paragraph would pair up as a code span around the tag: then nothing in between
+                    # is a tag or a hard break any more)
+                    segs = [" ".join("word" if w_ in ("```", "```typescript-react") else w_ for w_ in sg.split(" ")) for sg in segs]
                     if re.match(r"^([-*+]|\d{1,9}[.)])( |$)", segs[0]) or segs[0].startswith("|"):
                         segs[0] = "x" + segs[0]  # (a line that looks like a list item or table row next to a tag is block content for the tag heuristics: C06's business)
                     segs[0] = segs[0] + " " + tg[0]
@@ -319,6 +326,27 @@ class C05(Prop):
         if len(lines) >= 2 or case["width"] <= 0:
             col.distinct("para", case)
         col.hist("prefix", repr(case["ii"]))
+
+    def _check_emptyseg(self, case, col):
+        """A paragraph with a line that holds nothing but a hard line break: that line is a line of the paragraph too and
+        carries the continuation indent."""
+        ii, si, w = case["ii"], case["si"], case["width"]
+        text = case["a"] + case["hb"] + case["hb"] + case["b"]
+        for sem in (False, True):
+            col.case()
+            col.mon("wrapper")
+            factory = fm.line_wrap_by_sentence if sem else fm.line_wrap_to_width
+            wrapper = fm.call(factory, width=w, is_markdown=True)
+            res = fm.call(wrapper, text, ii, si) if not isinstance(wrapper, fm.Raised) else wrapper
+            if isinstance(res, fm.Raised):
+                col.violation("wrapper", f"C05/raised/{res.kind}", dict(case, semantic=sem), res.text)
+                continue
+            lines = res.split("\n")
+            col.distinct("emptyseg", text, ii, w, sem)
+            bad = [i for i, ln in enumerate(lines) if not ln.startswith((ii if i == 0 else si).rstrip() if ln.strip() in ("", "\\") else (ii if i == 0 else si))]
+            if bad:
+                col.violation("wrapper", "C05/indent/" + ("semantic" if sem else "fill"), dict(case, semantic=sem),
+                              {"line": bad[0], "got": lines[bad[0]][:60], "want_prefix": ii if bad[0] == 0 else si})
 
     def _check_lenfn(self, case, col):
         """The public wrapping functions with a caller-supplied measure (display width: CJK / fullwidth = 2 columns,
